@@ -62,9 +62,13 @@ func verifServerStarted(s *tunnelServer) {
 
 // VerifServeTunnel runs serveTunnel on the given carrier stream.
 func VerifServeTunnel(stream VerifStreamServer, tunnelMetadata metadata.MD, clientAcceptsSettings bool, disableFlowControl bool, handlers grpchan.HandlerMap, isClosing func() bool) error {
-	defer verifServers.Delete(stream)
+	// the entry stays after serve returned, so that the table of an ended
+	// tunnel can still be observed; VerifForgetServer drops it
 	return serveTunnel(stream, tunnelMetadata, clientAcceptsSettings, &tunnelOpts{disableFlowControl: disableFlowControl}, handlers, isClosing)
 }
+
+// VerifForgetServer drops the bookkeeping entry of VerifServeTunnel.
+func VerifForgetServer(stream VerifStreamServer) { verifServers.Delete(stream) }
 
 // VerifServerState reports the stream table keys (sorted) and lastSeen of the
 // tunnel server running on the given carrier stream.
